@@ -33,6 +33,31 @@ def _sig(rj):
     return sig
 
 
+def action_coverage(tlc_out, module):
+    """Per-action <distinct>:<generated> counts of a -coverage run.  TLC names an action after the innermost
+    definition it unfolds (often the shared Step), followed by the position of the disjunct: map that
+    position back to the enclosing D<Action> definition of the module."""
+    import re
+    defs = []
+    with open(os.path.join(SPEC, module + ".tla")) as f:
+        for n, ln in enumerate(f, 1):
+            m = re.match(r"^(D[A-Z]\w*)(\(.*\))? ==", ln)
+            if m:
+                defs.append((n, m.group(1)))
+    cov = {}
+    for m in re.finditer(r"^<(\w+) line (\d+), col \d+ to line \d+, col \d+ of module \w+(?: \((\d+) \d+ \d+ \d+\))?>: (\d+):(\d+)", tlc_out, re.M):
+        line = int(m.group(3) or m.group(2))
+        name = m.group(1)
+        for n, d in defs:
+            if n <= line:
+                name = d
+        if not name.startswith("D"):
+            continue
+        a, b = cov.get(name, (0, 0))
+        cov[name] = (a + int(m.group(4)), b + int(m.group(5)))
+    return cov, [d for n, d in defs]
+
+
 def build_driver():
     # header-only subsystem + the exception classes; built with ASan/UBSan so that an out-of-range
     # read or write inside a routine ends the run with a Crash event instead of going unnoticed
@@ -57,6 +82,44 @@ def run_driver(exe, args, trace):
     return s
 
 
+def corruption_control(ck, trace, module, cfg, pick, flip, wd):
+    """Binding control: one logged field of an accepted history is altered; the trace specification must
+    reject the altered history at that event (guards against a specification that accepts anything)."""
+    lines = open(trace).read().splitlines()
+    start = 0
+    for i, ln in enumerate(lines):
+        if ln.startswith('{"e":"Reset"'):
+            start = i
+            continue
+        ev = json.loads(ln)
+        if pick(ev):
+            flip(ev)
+            p = os.path.join(wd, "corrupted.ndjson")
+            with open(p, "w") as f:
+                f.write("\n".join(lines[start:i] + [json.dumps(ev, separators=(",", ":"))]) + "\n")
+            n_ev, rej, st = vc.validate_trace(SPEC, module, cfg, p, parallel=1)
+            os.remove(p)
+            ck.extra["corruption_control"] = "altered %s event rejected: %s" % (ev["e"], bool(rej))
+            if not rej:
+                raise vc.MachineryError("corruption control: an altered %s event was accepted by %s" % (ev["e"], module))
+            return
+    ck.extra["corruption_control"] = "no suitable event"
+
+
+def _pick_matrix_result(ev):
+    if ev.get("r") != "ok" or not ev.get("out") or ev.get("e") in ("Add", "AddScaled", "Scale"):
+        return False
+    o = ev["out"][0]
+    return any(w[0] == o and w[1]["r"] >= 1 for w in ev["w"])
+
+
+def _flip_matrix_result(ev):
+    o = ev["out"][0]
+    for w in ev["w"]:
+        if w[0] == o:
+            w[1]["e"][-1][-1] += 1
+
+
 def _validate(ck, trace):
     n_ev, rej, st = vc.validate_trace(SPEC, "MatrixOpsTrace", TRACE_CFG, trace)
     ck.events += n_ev
@@ -79,17 +142,21 @@ def run(tier, seed):
                  "SPECIFICATION Spec\nCONSTANTS\n  Ids = {1, 2}\n  OutId = 3\n  DMax = 2\n  Vals = %s\n  Bound = %d\n  Depth = 1\n"
                  "INVARIANTS %s RaiseKeepsEverything\nCHECK_DEADLOCK FALSE\n" % (vals, bound, INV))
     chain = _write(os.path.join(wd, "design_chain.cfg"),
-                   "SPECIFICATION Spec\nCONSTANTS\n  Ids = {1, 2}\n  OutId = 3\n  DMax = 2\n  Vals = {1}\n  Bound = %d\n  Depth = 2\n"
-                   "INVARIANTS %s RaiseKeepsEverything\nCHECK_DEADLOCK FALSE\n" % (2 if quick else 4, INV))
+                   "SPECIFICATION Spec\nCONSTANTS\n  Ids = {1, 2}\n  OutId = 3\n  DMax = %d\n  Vals = {1, 2}\n  Bound = 4\n  Depth = 2\n"
+                   "INVARIANTS %s RaiseKeepsEverything\nCHECK_DEADLOCK FALSE\n" % (1 if quick else 2, INV))
     jobs = [("MatLemmas", "MatLemmas", lem, 2, False), ("LapLemmas", "LapLemmas", lap, 2, False),
-            ("MatrixOps/all-heaps", "MatrixOps", des, max(4, vc.NCPU - 6), True),
-            ("MatrixOps/chains", "MatrixOps", chain, 4, False)]
+            ("MatrixOps/all-heaps", "MatrixOps", des, max(4, vc.NCPU - 6), False),
+            ("MatrixOps/chains", "MatrixOps", chain, 4, True)]
     with ThreadPoolExecutor(max_workers=4) as ex:
         futs = [(j, ex.submit(vc.tlc, SPEC, j[1], j[2], workers=j[3], coverage=j[4], timeout=3000, heap="6g")) for j in jobs]
         results = [(j, f.result()) for j, f in futs]
     for (name, module, cfg, w, cov), r in results:
         consts = open(cfg).read().split("CONSTANTS")[1].split("INVARIANTS")[0].split()
         ck.add_model(name, r, " ".join(consts))
+        if cov:
+            ac, all_actions = action_coverage(r.out, module)
+            ck.extra["design_action_coverage"] = {k: "%d:%d" % v for k, v in sorted(ac.items())}
+            ck.untaken += [name + ":" + a for a in all_actions if ac.get(a, (0, 0))[1] == 0]
         if r.assumption_failed:
             ck.violation("oracle lemma of %s fails: the definitions disagree with each other\n%s" % (module, r.out[-1500:]), [r.out[-3000:]], tag="lemma")
         elif r.invariant:
@@ -108,6 +175,7 @@ def run(tier, seed):
         s = run_driver(exe, args, tr)
         _validate(ck, tr)
         if name == "random":
+            corruption_control(ck, tr, "MatrixOpsTrace", TRACE_CFG, _pick_matrix_result, _flip_matrix_result, wd)
             ck.samples += vc.sample_scenarios(tr, 3, maxlines=6)
             combos = s.get("class_combos", {})
             ck.extra["calls_per_routine"] = s.get("calls", {})
